@@ -210,12 +210,16 @@ def check_entry(ctx, prog, f):
 def entries(prog):
     out = []
     for f in prog.fns:
-        if not f.exported or f.unsafe or "closure" in f.path:
+        if f.unsafe or "closure" in f.path:
+            continue
+        # the checked forms of the position-array operations: their asserts are the contract of the `_internal` bodies (the `Mut` trait
+        # is crate-private but is what the public `BlockHashPositionArray::init_from` forwards to)
+        if re.search(r"^<T as internals::compare::position_array::BlockHashPositionArrayImpl(Mut)?>::\w+$", f.path):
+            out.append(f)
+            continue
+        if not f.exported:
             continue
         if re.search(r"(FuzzyHashData|FuzzyHashDualData)::<[^>]*>::(new_from_internals|init_from_internals)[a-z_]*$", f.path):
-            out.append(f)
-        # the checked forms of the position-array operations: their asserts are the contract of the `_internal` bodies
-        elif re.search(r"^<T as internals::compare::position_array::BlockHashPositionArrayImpl(Mut)?>::\w+$", f.path):
             out.append(f)
     return out
 
